@@ -1,6 +1,7 @@
 package node
 
 import (
+	"math/big"
 	"time"
 
 	"github.com/Factom-Asset-Tokens/factom"
@@ -74,17 +75,12 @@ func vrtBatchHarness(nocheck bool) {
 			hasConv = true
 		} else {
 			m := 1 + vrt.Choose("nout", maxOut)
-			remaining := tx.Input.Amount
+			// output amounts are ARBITRARY 64-bit values: that they add up to the input (without
+			// wrapping) is the job of the real ValidData below, not of this harness
 			for j := 0; j < m; j++ {
 				var tr fat2.AddressAmountTuple
 				tr.Address = outPool[vrt.Choose("to", len(outPool))]
-				if j == m-1 {
-					tr.Amount = remaining
-				} else {
-					tr.Amount = vrt.URange("out", 0, vrtMaxBal)
-					vrt.Assume(tr.Amount <= remaining)
-					remaining -= tr.Amount
-				}
+				tr.Amount = vrt.U64("out")
 				tx.Transfers = append(tx.Transfers, tr)
 			}
 		}
@@ -256,6 +252,13 @@ func vrtBatchHarness(nocheck bool) {
 			expSum[di] += out
 			vrt.Assert("C17.converted-amount-recorded", vrtToAmount(tx, batch.Entry.Hash, k) == int64(out))
 		} else {
+			// an executed transfer moves exactly its input: the outputs add up to it as
+			// mathematical integers (a sum that only matches modulo 2^64 would create supply)
+			outs := new(big.Int)
+			for _, tr := range t.Transfers {
+				outs.Add(outs, new(big.Int).SetUint64(tr.Amount))
+			}
+			vrt.Assert("C04.executed-transfer-outputs-add-up-to-its-input", outs.Cmp(new(big.Int).SetUint64(t.Input.Amount)) == 0)
 			for _, tr := range t.Transfers {
 				if height >= specV202 && tr.Address == burn {
 					continue // burned: debited, credited to nobody
